@@ -168,13 +168,35 @@ def describe(enforce, stratum, r, idx, ev, payload):
     obs = None
     if ev["ev"] == "Resp":
         exp = fedlib.expected_from_payload(payload)
-        if "C01" in enforce:
+        fault = next((e for e in r["events"][a:b + 1] if e["ev"] == "Fault"), None)
+        calls = [e for e in r["events"][a:b + 1] if e["ev"] == "Call"]
+        if fault is not None and ("C09" in enforce or "C10" in enforce):
+            seen = set(l for c in calls for l in c.get("leaves", []))
+            if not ev.get("wellformed", True) or ev.get("status") != 200:
+                sym = "fault:%s/malformed-or-status-%s" % (fault["kind"], ev.get("status"))
+            elif "C09" in enforce and fault["signal"] and not ev["errors"]:
+                sym = "fault:%s/failure-not-reported" % fault["kind"]
+            elif "C09" in enforce and not set(ev.get("leaves", [])) <= seen:
+                sym = "fault:%s/value-no-service-returned" % fault["kind"]
+            elif "C10" in enforce:
+                sym = "fault:%s/service-error-not-forwarded-intact" % fault["kind"]
+            else:
+                sym = "fault:%s/other" % fault["kind"]
+        elif req.get("invalid") and "C10" in enforce:
+            sym = "invalid:%s/%s" % (req["invalid"], "no-errors" if not ev["errors"] else "data-not-null" if fedlib.untag(ev["data"]) is not None else "other")
+        elif "C09" in enforce and not set(ev.get("leaves", [])) <= set(l for c in calls for l in c.get("leaves", [])) and not ev["errors"] and exp is None:
+            sym = "value-no-service-returned"
+        elif "C01" in enforce:
             sym = fedlib.symptom(ev, exp)
         else:
             sym = "resp:mutation-root-field-count"
         obs = fedlib.norm(fedlib.untag(ev["data"]))
     elif ev["ev"] == "Plan":
         sym = plan_reason(r["reset"], req["op"], ev)
+    elif ev["ev"] in ("Call", "QCall") and req.get("invalid") and "C10" in enforce:
+        sym = "invalid:%s/downstream-request-made" % req["invalid"]
+    elif ev["ev"] == "QCall":
+        sym = "call:identical-lookups-sent-twice-in-one-call" if ev["dup"] else "call:more-calls-to-a-service-than-plan-levels"
     elif ev["ev"] == "Call":
         sym = call_reason(req["op"], ev, enforce)
     else:
@@ -206,7 +228,18 @@ def run_fed_check(sc, tier, pid, enforce, level, budgets, controls, assumptions,
     cfg_text = fedlib.cfg_text(enforce)
     fedlib.CFG_TEXT = cfg_text
     worlds, ops = budgets["thorough" if thorough else "quick"]
-    stats, rejections, other, samples, runs_sample = fedlib.run_strata(sc, binary, enforce, worlds, ops, cfgs_core=CFGS, pinned_prefix=pid, strata=strata)
+    stats, rejections, other, samples, runs_sample, crashes = fedlib.run_strata(sc, binary, enforce, worlds, ops, cfgs_core=CFGS, pinned_prefix=pid, strata=strata)
+    for stratum, last, code, stderr in crashes:
+        msg = [l for l in stderr.splitlines() if l.startswith("panic:") or l.startswith("fatal error:")]
+        frame = ""
+        lines = stderr.splitlines()
+        for i, l in enumerate(lines):
+            if "buildbuildio/pebbles" in l and "(" in l and not frame:
+                frame = l.split("(")[0].strip().split("/")[-1]
+        kind = "hang" if code == 3 else "crash"
+        sig = "%s/%s:%s@%s" % (fedlib.case_prefix(last[0], last[1]) if last else "?", kind, (msg[0] if msg else "exit %s" % code)[:80], frame)
+        what = "the gateway process %s while serving (stratum %s):\n%s\n%s" % ("hung" if code == 3 else "died", stratum, last[1]["text"] if last else "?", "\n".join(msg[:2]))
+        V.violation(sig, what, {"stratum": stratum, "world": last[0]["reset"] if last else None, "request": last[1] if last else None, "stderr": stderr})
     for o in other:
         if o["ev"] == "HarnessError":
             raise vlib.MachineryError("harness: %s" % o["what"])
